@@ -197,11 +197,11 @@ theorem degMod_partial (q : CQuirks) (v : Rat) (h : ¬ (v < 0 ∧ CExtra.fmod v 
     simp [hv, this]
   · have hr := (fmod_nonneg v 360 (by norm_num) (not_lt.mp hv)).1
     have : ¬ (CExtra.fmod v (360 : Rat) < 0) := not_lt.mpr hr
-    simp [hv, this]
+    simp [hv, this, abs_of_nonneg' _ hr]
 
 example : ¬ ((-400 : Rat) < 0 ∧ CExtra.fmod (-400 : Rat) (360 : Rat) = 0) := by decide +kernel
 
-/-- REFUTATION (`degModNegZero`, finding C31-hue-360): as written, the hue of
+/-- REFUTATION (`degModNegZero`, finding C31-hue-360, fixed by 60b104e): as written before the fix, the hue of
 `hsl(-360, 50%, 50%)` is 360, outside `[0, 360)`. -/
 theorem degMod_refutes : degMod CQuirks.asis (-360 : Rat) = 360 := by decide +kernel
 
@@ -214,7 +214,7 @@ theorem hslaEq_partial (q : CQuirks) (x : Rgba Rat) (y : Col Rat) :
       = y.eqv { q with hslaEqStructural := false } (Col.rgba x) := by
   cases y <;> exact ⟨rfl, rfl⟩
 
-/-- REFUTATION (`hslaEqStructural`, finding C31-hsla-eq-structural): as written,
+/-- REFUTATION (`hslaEqStructural`, finding C31-hsla-eq-structural, fixed by b49c85e): as written before the fix,
 `hsl(0, 0%, 50%)` and `hsl(120, 0%, 50%)` — the same grey, rgba (127.5, 127.5, 127.5, 1) —
 compare unequal. -/
 theorem hslaEq_refutes :
